@@ -743,6 +743,55 @@ def r13k(ctx):
                        f"search it: such a style is not found again, is missing from get_styles(), and a second merge stores it twice")
 
 
+def r13l(ctx):
+    """"Nothing to replace" is claimed only for a name that was just made up.
+
+    Each placement helper of insert_style answers two questions: where the style goes, and which style already there it replaces
+    (`existing`).  Replacing instead of duplicating needs `existing` to come from a lookup on every path.  The one legitimate `None` is the
+    unnamed automatic style, whose name is generated to be unused (`_set_automatic_name`).  A helper that skips the lookup on some other
+    path — no name given, so "nothing to replace" — appends a second default style of the family next to the first.  Rule: in every
+    `_insert_style_get_*` helper, a definition `existing = None` sits in a block that generates the unique name.
+    """
+    repo = ctx.repo
+    ctx.rule("R13l", "insert helpers claim there is nothing to replace only after generating an unused name", floor=6)
+    c = repo.cls("Document")
+    n = 0
+    for name, fs in sorted(c.methods.items()):
+        if not name.startswith("_insert_style_get"):
+            continue
+        f = fs[0]
+        rets = [r for r in walk_no_nested(f.node) if isinstance(r, ast.Return) and isinstance(r.value, ast.Tuple) and len(r.value.elts) == 2]
+        if not rets:
+            continue
+        ev = rets[0].value.elts[0]
+        if not isinstance(ev, ast.Name):
+            continue
+        n += 1
+        defs = [a for a in walk_no_nested(f.node) if isinstance(a, ast.Assign) and any(isinstance(t, ast.Name) and t.id == ev.id for t in a.targets)]
+        bad = []
+        for a in defs:
+            if isinstance(a.value, ast.Constant) and a.value.value is None:
+                # the enclosing block
+                blk = None
+                for st in ast.walk(f.node):
+                    for fld in ("body", "orelse"):
+                        b = getattr(st, fld, None)
+                        if isinstance(b, list) and a in b:
+                            blk = b
+                gen = blk is not None and any(isinstance(x, ast.Call) and call_name(x) in ("_set_automatic_name", "_unique_style_name") for s_ in blk for x in ast.walk(s_))
+                if not gen:
+                    bad.append(a)
+        lookups = [a for a in defs if isinstance(a.value, ast.Call) and "get_style" in call_name(a.value)]
+        ok = not bad and bool(lookups)
+        ctx.instance("R13l", f"{f.file}:{f.ident}", f"`{ev.id}` comes from a lookup ({len(lookups)}) or is None for a generated name", ok=ok, nontrivial=True, line=f.node.lineno)
+        for a in bad[:1]:
+            ctx.report("R13l", f, a, f"{name}: {norm(a, 40)}",
+                       f"{f.ident} answers `{ev.id} = None` on a path that does not generate an unused name: the style already present for that family (and name) is not looked up, so the new "
+                       f"style is appended next to it — two default styles of one family, and get_style keeps returning the old one")
+    if n < 6:
+        raise AnalysisError(f"R13l: only {n} insert helper(s) found")
+
+
 def run(ctx):
     r13ab(ctx)
     r13c(ctx)
@@ -754,6 +803,7 @@ def run(ctx):
     r13i(ctx)
     r13j(ctx)
     r13k(ctx)
+    r13l(ctx)
 
 
 from ..selftest import Seed, unparse_seed  # noqa: E402
@@ -761,6 +811,9 @@ from ..selftest import Seed, unparse_seed  # noqa: E402
 _DOC = "src/odfdo/document.py"
 _ST = "src/odfdo/styles.py"
 SEEDS = [
+    Seed("default-style helper looks the old default up only when a name was given", "fault", _DOC,
+         "        if name:\n            style.del_attribute(\"style:name\")\n        existing = self.styles.get_style(family)",
+         "        if name:\n            style.del_attribute(\"style:name\")\n            existing = self.styles.get_style(family)\n        else:\n            existing = None", "R13l"),
     Seed("table-cell styles looked up among the common styles only", "fault", _ST, '    "table-cell": ("//office:styles", "//office:automatic-styles"),', '    "table-cell": ("//office:styles",),', "R13k"),
     Seed("Styles.get_style retries the name as a display name", "fault", _ST, "        for context in self._get_style_contexts(family):\n            if context is None:\n                continue\n            style = context.get_style(",
          "        if name_or_element and isinstance(name_or_element, str) and not display_name and family == \"none\":\n            return self.get_style(family, display_name=name_or_element)\n        for context in self._get_style_contexts(family):\n            if context is None:\n                continue\n            style = context.get_style(", "R13j"),
